@@ -913,3 +913,91 @@ write_status_unit = Contract(
     assumptions=['open(path, "w") truncates; text file write appends to the handle (A4)'],
 )
 UNITS.append(write_status_unit)
+
+
+# ------------------------------------------------------------------------------ no time-out the user did not ask for
+# run_tagging_tasks swallows TimeoutError by design: with -max_time_per_segment the user accepts that slow segments are given
+# up (and named in the header) while the run still ends "All ok".  "Contains every record" therefore needs that no time-out is
+# in force unless that option was given: whatever method is chosen, the method table of run_multiome_tagging leaves
+# max_time_per_segment as the caller set it (args.max_time_per_segment, two statements above the table).  The real if/elif
+# chain is executed with a symbolic method name; everything the branches read besides that (the other options, the class
+# objects, the reference) is an opaque value of arbitrary truth.
+class _AnyProps(dict):
+    def __contains__(self, k):
+        return not k.startswith('__')
+
+    def __getitem__(self, k):
+        def get(e, o, _k=k):
+            if _k not in o.attrs:
+                o.attrs[_k] = Builtin(_k, lambda e2, a, kw, n: _opaque()) if _k[:1].isupper() else _opaque()
+            return o.attrs[_k]
+        return get
+
+
+class _AnyMethods(dict):
+    def __contains__(self, k):
+        return not k.startswith('__')
+
+    def __getitem__(self, k):
+        return lambda e, o, *a, **kw: _opaque()
+
+
+class _Opaque(Obj):
+    def vc_truth(self):
+        if not hasattr(self, '_truth'):
+            self._truth = fresh(BOOL, 'truth_of_an_option').z
+        return self._truth
+
+    def vc_call(self, eng, args, kwargs):
+        return _opaque()
+
+
+def _opaque():
+    return _Opaque('OpaqueValue', {})
+
+
+def _method_chain(f):
+    c = blocks.find_nodes(f, lambda n: isinstance(n, ast.If) and ast.unparse(n.test) == "args.method == 'qflag'"
+                          and any(isinstance(x, ast.Assign) and ast.unparse(x.targets[0]) == 'molecule_class' for x in n.body))
+    return c[:1]
+
+
+def _chain_setup(eng):
+    stubs.STUBS['OpaqueValue'] = {'methods': {}, 'props': _AnyProps(), 'setters': {}}
+
+
+def _chain_pre(eng, fr):
+    from pyvc.engine import named
+    mt = None if eng.spec_env['CASE_NONE'] else named(INT, 'max_time_per_segment_given')
+    eng.spec_env['MT0'] = mt
+    args = _opaque()
+    args.attrs['method'] = named(STR, 'method')
+    args.attrs['max_time_per_segment'] = mt
+    fr.env['args'] = args
+    fr.env.update({'max_time_per_segment': mt, 'singlecellmultiomics': _opaque(), 'molecule_class_args': {}, 'fragment_class_args': {},
+                   'transcriptome_feature_args': {}, 'reference': _opaque() if eng.spec_env['CASE_REF'] else None,
+                   'bp_per_job': 10_000_000, 'pooling_method': 1, 'bp_per_segment': 999_999_999, 'fragment_size': 500,
+                   'one_contig_per_process': False, 'yield_invalid': _opaque()})
+
+
+def chain_unit(none, ref):
+    u = Contract(
+        PROP, FT + '::run_multiome_tagging',
+        name='run_multiome_tagging[method table leaves the time-out as given; %s, %s]' % (
+            'no -max_time_per_segment' if none else '-max_time_per_segment given', 'with -ref' if ref else 'without -ref'),
+        block=_method_chain,
+        params={},
+        setup=lambda eng: (_chain_setup(eng), eng.spec_env.update({'CASE_NONE': none, 'CASE_REF': ref})),
+        pre_state=_chain_pre,
+        ensures={'no_time_out_unless_asked_for': 'max_time_per_segment == MT0' if not none else 'max_time_per_segment is None'},
+        raises={'ValueError': 'True', 'AssertionError': 'True'},
+        assumptions=['options, class objects and the reference are opaque values of arbitrary truth; ValueError (unknown method) and '
+                     'AssertionError (a method that needs -ref) end the run before anything is written; the statements between the table and the '
+                     'call of tag_multiome_multi_processing are not under this contract'],
+    )
+    return u
+
+
+for _none in (True, False):
+    for _ref in (True, False):
+        UNITS.append(chain_unit(_none, _ref))
